@@ -521,6 +521,74 @@ def grid_settings_completion(chk, tier, rng):
             logging.disable(logging.NOTSET)
 
 
+def omitted_settings_completion(chk, tier, rng):
+    """Every schema-valid configuration: each documented QHA setting may be left out by the user (the schema requires none of them).
+    The omitted key is a finite-domain symbolic index; the effective configuration is built by the real apply_default_config and
+    handed to the real loader (numeric QHA work stubbed as in grid_settings_completion)."""
+    import json
+    import cij.data
+    import cij.core.qha_adapter as qa
+    import cij.io.config as cfgmod
+    with open(cij.data.get_data_fname("schema/config.schema.json")) as fp:
+        schema = json.load(fp)
+    keys = sorted(k for k in schema["definitions"]["qha_settings"]["properties"] if k != "additionalProperties")
+    full = dict(NT=3, DT=100, T_MIN=0, NTV=4, P_MIN=0, DELTA_P=1, DELTA_P_SAMPLE=1, volume_ratio=1.2, order=3)
+    keys = [k for k in keys if k in full]
+    ctx = new_context()
+    ctx.concretise_enabled = True
+    OM = ctx.var("omitted", domain=list(range(len(keys))))
+
+    class Quiet(qa.QHACalculator):
+        def read_input(self, x):
+            pass
+
+        def refine_grid(self):
+            pass
+
+        def desired_pressure_status(self):
+            pass
+        where_negative_frequencies = None
+        v_ratio = 1.2
+
+    def load(user):
+        import logging
+        logging.disable(logging.CRITICAL)
+        try:
+            cfgmod.validate_config(user)
+            eff = cfgmod.apply_default_config(user)
+            with patched((qa, {"QHACalculator": Quiet})):
+                calc = qa.QHACalculatorAdapter._load_qha_calculator(dict(eff["qha"]["settings"]), object())
+            return len(calc.temperature_array), len(calc.desired_pressures_gpa)
+        finally:
+            logging.disable(logging.NOTSET)
+
+    def fn():
+        k = keys[int(OM)]
+        st = {a: b for a, b in full.items() if a != k}
+        return k, load({"qha": {"input": "input01", "settings": st}, "elast": {"input": "elast.dat", "settings": {}}})
+    t0 = time.time()
+    try:
+        paths = X.Explorer(max_paths=64, name="C12:omitted-setting").run(fn)
+    except (SymError, X.PathBudgetExceeded) as e:
+        chk.inconclusive("omitted settings", str(e))
+        return
+    failing = [p for p in paths if p.exception is not None]
+    chk.obligation("the calculation's QHA layer loads whichever single documented setting of %s the user leaves out [%d paths]" % (keys, len(paths)),
+                   "unsat" if not failing else "sat", seconds=round(time.time() - t0, 1), kind="all-paths(finite domain)",
+                   detail=("%s: %s" % (type(failing[0].exception).__name__, str(failing[0].exception)[:100])) if failing else None)
+    chk.witness("omitted settings: one path per documented setting", "sat" if len(paths) == len(keys) else "unsat")
+    for p in failing:
+        v, env = Z.satisfiable([], name="C12:omitted:model", conds=p.path_condition())
+        k = keys[int((env or {}).get("omitted", 0))]
+        user = {"qha": {"input": "input01", "settings": {a: b for a, b in full.items() if a != k}}, "elast": {"input": "elast.dat", "settings": {}}}
+        try:
+            load(user)
+            chk.harness_error("omitted settings: failing path (%s) did not reproduce" % k)
+        except Exception as e:
+            chk.violation("omitted-setting:%s" % k, "a validated configuration that leaves out qha.settings.%s cannot be run: %s: %s (no packaged default "
+                          "stands in for it)" % (k, type(e).__name__, str(e)[:80]), dict(user=user))
+
+
 def realness(chk, rng):
     """Concrete (all 15 keys): the eigen-frame the real class computes is a real array (dtype), as is the rotated strain."""
     import cij.core.phonon_contribution.shear as sh
@@ -561,6 +629,7 @@ def main():
     masking_and_pipeline(chk, tier, rng)
     completion_on_degenerate_strains(chk, tier, rng)
     grid_settings_completion(chk, tier, rng)
+    omitted_settings_completion(chk, tier, rng)
     realness(chk, rng)
     chk.bound(omega_cm1=[W_LO, W_HI], T_K=[T_LO, T_HI], fp="IEEE binary64, round-nearest-even", solver_timeout_s=120)
     for f in EXP_FACTS:
